@@ -90,6 +90,39 @@ theorem valOpt_ite (c : Prop) [Decidable c] (x : α) :
     valOpt (if c then Val.nan else Val.fin x) = if c then none else some x := by
   split <;> rfl
 
+/-! the remaining operations the sampler closures use (`-x`, the literal `2`, `np.sqrt`, `np.log`), lifted the same way:
+    NaN in, NaN out; on numbers the carrier's own operation -/
+instance nanNegI : Neg (Option α) := ⟨Option.map (fun a => -a)⟩
+instance nanTwoI : OfNat (Option α) 2 := ⟨some 2⟩
+instance nanTranscI : Taurex.Transc (Option α) where
+  exp := Option.map exp
+  log := Option.map log
+  log10 := Option.map log10
+  sqrt := Option.map sqrt
+  pow10 := Option.map pow10
+
+/-- `np.sum` of numbers computed element-wise from numbers stays a number -/
+theorem foldl_some_add (g : α → α) (G : Option α → Option α) (hG : ∀ x, G (some x) = some (g x)) (l : List α) (a : α) :
+    List.foldl (fun acc x => acc + x) (some a) (List.map G (l.map some))
+      = some (List.foldl (fun acc x => acc + x) a (l.map g)) := by
+  induction l generalizing a with
+  | nil => rfl
+  | cons x l ih =>
+    simp only [List.map_cons, List.foldl_cons, hG]
+    exact ih (a + g x)
+
+/-- the normalisation term `np.sum(np.log(datastd*sqrtpi))` of error bars that are numbers, at the NaN-aware carrier -/
+theorem normTerm_some (pi : α) (sig : List α) :
+    List.foldl (fun acc x => acc + x) (0 : Option α)
+        (List.map (fun x => log (x * sqrt ((2 : Option α) * some pi))) (sig.map some))
+      = some (normTerm pi sig) :=
+  foldl_some_add (fun s => log (s * sqrt (2 * pi))) _ (fun _ => rfl) sig 0
+
+/-- `-norm - 0.5*chi_t` with `chi_t` possibly NaN: NaN exactly when `chi_t` is -/
+theorem loglike_nan (a h : α) (x : Option α) :
+    (-(some a : Option α)) - ((some h : Option α) * x) = x.map (fun c => -a - h * c) := by
+  cases x <;> rfl
+
 end nan
 
 section loops
